@@ -26,8 +26,8 @@ def query_body(kind):
             '</CR:addressbook-query>')
 
 
-def report_data(srv, coll, kind, body):
-    st, h, b = srv.request("REPORT", coll, data=body)
+def report_data(srv, coll, kind, body, **headers):
+    st, h, b = srv.request("REPORT", coll, data=body, **headers)
     out = {}
     if st != 207:
         return st, out
@@ -640,9 +640,10 @@ def _encodings(ctx, g):
         conf = {"auth": {"type": "none"}, "rights": {"type": "authenticated"}, "encoding": {"stock": stock, "request": request}}
         srv = impl.Server(conf=conf)
         try:
+            xml_utf8 = dict(CONTENT_TYPE="text/xml; charset=utf-8")     # the harness declares the charset of its XML bodies
             srv.mkcol("/u/")
             srv.mkcalendar("/u/c/")
-            srv.mkaddressbook("/u/a/")
+            srv.mkaddressbook("/u/a/", **xml_utf8)
             stored = {}
             unservable = set()      # collections holding an object the response charset cannot express
             for i in range(n_obj):
@@ -719,7 +720,7 @@ def _encodings(ctx, g):
                 mine = {p: v for p, v in stored.items() if v[2] == (kind == "card")}
                 if not mine:
                     continue
-                st, data = report_data(srv2, coll, kind, multiget_body(kind, list(mine)))
+                st, data = report_data(srv2, coll, kind, multiget_body(kind, list(mine)), **xml_utf8)
                 if st != 207 or set(data) != set(mine):
                     fail("enc-report", "[encoding] stock=%s request=%s: REPORT on a fresh Application: status %s, %d of %d objects" % (stock, request, st, len(data), len(mine)),
                          dict(config=conf["encoding"], coll=coll))
